@@ -181,8 +181,19 @@ def escape_rules():
     r = Rules("json-escape")
     r.add("R9.rangefor", r"for \(char i : str\) \{", "for (size_t verif_i = 0; verif_i < vjs_size(str); ++verif_i) { char i = str->data[verif_i];", min_fire=0)
     r.add("R9.outdecl", r"\bstd::string output;", "")
-    r.add("R9.out2", r"\boutput \+= \"\\\\(\\\\|\\\"|[bfnrt])\";", lambda m: "vstr_push_back(output, '\\\\'); vstr_push_back(output, '%s');" % {"\\\\": "\\\\", "\\\"": "\"", }.get(m.group(1), m.group(1)))
-    r.add("R9.out1", r"\boutput \+= i;", "vstr_push_back(output, i);")
+    def lit(m):
+        # output += "literal";  -> one push_back per character of the literal (escape sequences stay C character literals)
+        chars = re.findall(r"\\.|[^\\]", m.group(1))
+        out = []
+        for ch in chars:
+            if ch == "'":
+                ch = "\\'"
+            elif ch == '\\"':
+                ch = '"'
+            out.append("vstr_push_back(output, '%s');" % ch)
+        return " ".join(out)
+    r.add("R9.out2", r'\boutput \+= "((?:[^"\\]|\\.)*)";', lit)
+    r.add("R9.out1", r'\boutput \+= ([^;"]+);', r"vstr_push_back(output, \1);")
     r.add("R9.outret", r"\breturn output;", "return;")
     r.extend(base_rules())
     return r
@@ -271,8 +282,8 @@ def escape_kernel(kb, hdr, C, tier):
     kb.add(r'''
 void h_roundtrip_pipeline(void) {
   size_t n; __CPROVER_assume(n <= 3);
-  char in[3]; char buf[9]; vjs s; s.data = in; s.len = n;
-  vstr out; out.data = buf + 1; out.cap = 7; out.len = 0;
+  char in[3]; char buf[27]; vjs s; s.data = in; s.len = n;
+  vstr out; out.data = buf + 1; out.cap = 24; out.len = 0;
   JSON_json_escape(&s, &out);
   buf[0] = '"'; buf[out.len + 1] = '"';
   vjs t; t.data = buf; t.len = out.len + 2;
@@ -285,8 +296,8 @@ void h_roundtrip_pipeline(void) {
   __CPROVER_assert(n < 3 || verif_last_string.t[7] == (unsigned char)in[2], "[P] round trip keeps byte 2");
 }
 ''')
-    t = Target("roundtrip_pipeline", "h_roundtrip_pipeline", enforce=False, loops=False, unwind=10, canary=False,
-               bounded_note="strings of at most 3 bytes, loops unwound 10 times with unwinding assertions")
+    t = Target("roundtrip_pipeline", "h_roundtrip_pipeline", enforce=False, loops=False, unwind=27, canary=False,
+               bounded_note="strings of at most 3 bytes (up to 8 escaped bytes each), loops unwound 27 times with unwinding assertions")
     kb.targets.append(t)
 
 
